@@ -82,6 +82,27 @@ func C03Scenarios(c *lib.Ctx, yield func(name string, run func()) bool) {
 			return
 		}
 	}
+	j := 0
+	if !enumC06Net(c, func(cs c06Case) bool {
+		j++
+		if j%5 != 0 {
+			return true
+		}
+		cc := cs
+		return yield("mesh", func() {
+			for _, full := range []bool{false, true} {
+				cfg := *cc.Net
+				cfg.Full = full
+				nt := simx.BuildMesh(cfg, append([]simx.NetMsg{}, cc.Msgs...))
+				nt.Start()
+				nt.Env.Run(400000)
+				contribute(nt.Env)
+				nt.Env.Close()
+			}
+		})
+	}) {
+		return
+	}
 	enumC06VM(c, func(cs c06Case) bool {
 		i++
 		if i%29 != 0 {
